@@ -126,6 +126,9 @@ class _VGLevyMeasure(LevyMeasure):
             self.parameters._lambda_m,
             self.parameters._lambda_p,
         )
+        if a < b and a <= 0 <= b:
+            return np.inf  # infinite activity: the mass of any neighbourhood of zero is infinite
+
         if b == np.inf:
             if a == np.inf:
                 return 0.0
